@@ -90,7 +90,7 @@ pub fn scenario(u: &Unit) -> String {
             let prem = bb[j].1.ident(expected).and(b1c[j].1.ident(del[j].1 - (ea[j].1 + eab[j].1))).and(a[j].1.ident(del[j].1 - ea[j].1));
             ob_via(&format!("B(k)~A+k(B(1)-A).{}", nm), "affine-structure", prem, bb[j].1.approx(affine, 16.0, mag));
             // nothing exported: the result does not depend on k at all
-            ob(&format!("noexport=>B(k)=B(0).{}", nm), k(0.0).lt(bk.exp.an).or(bb[j].1.ident(b0c[j].1)));
+            ob(&format!("noexport=>B(k)=B(0).{}", nm), k(0.0).lt_(bk.exp.an).or(bb[j].1.ident(b0c[j].1)));
         }
         // per service
         for (srv, r) in sorted_kv(w.b_by_srv.iter()) {
